@@ -76,8 +76,8 @@ SPECS["C09"] = {
 # ---------------------------------------------------------------------------------------------- C10
 def plan_c10(tier, seed):
     if tier == "quick":
-        return checks("main", 8, 40000) + shards("plain", "sparse-12", 8) + shards("plain", "tiny-floats", 4)
-    runs = (checks("main", 10, 500000) + checks("nohook", 2, 300000) + shards("plain", "sparse-17", 16, timeout=7000)
+        return checks("main", 8, 40000) + shards("plain", "sparse-12", 8) + shards("plain", "tiny-floats", 4) + shards("plain", "big-ties-2", 4)
+    runs = (shards("plain", "big-ties-100", 8) + checks("main", 10, 500000) + checks("nohook", 2, 300000) + shards("plain", "sparse-17", 16, timeout=7000)
             + shards("plain", "wide-50", 16, timeout=7000) + shards("plain", "tiny-floats", 4))
     # every float bit pattern at three (precision, format) pairs, plain -O2 build, 16 shards each
     for what in ("floats-9-0", "floats-6-1", "floats-2-2"):
@@ -117,8 +117,8 @@ SPECS["C10"] = {
 # ---------------------------------------------------------------------------------------------- C11
 def plan_c11(tier, seed):
     if tier == "quick":
-        return checks("main", 8, 40000) + shards("plain", "least-slack-4", 16)
-    return (checks("main", 8, 500000) + shards("plain", "floats", 16, timeout=7000) + shards("plain", "doubles-lattice", 16, timeout=7000)
+        return checks("main", 8, 40000) + shards("plain", "least-slack-4", 12) + shards("plain", "short-decimals", 4)
+    return (checks("main", 8, 500000) + shards("plain", "short-decimals", 4) + shards("plain", "floats", 16, timeout=7000) + shards("plain", "doubles-lattice", 16, timeout=7000)
             + shards("plain", "least-slack-400", 16, timeout=7000))
 
 
